@@ -194,8 +194,8 @@ def calculate_damped_oscillation_matrix_no_irf(matrix, frequencies, rates, axis)
     for frequency, rate in zip(frequencies, rates):
         osc = np.exp(-rate * axis - 1j * frequency * axis)
         matrix[:, idx] = osc.real
-        matrix[:, idx + 1] = osc.imag
-        idx += 2
+        matrix[:, idx + frequencies.size] = osc.imag
+        idx += 1
 
 
 def calculate_damped_oscillation_matrix_gaussian_irf_on_index(
